@@ -1,8 +1,8 @@
 (* C13, the link to ranking: the predicates agree with the category NAME obtained by ranking the same
-   hand. This part of C13 depends on the contents of the lookup tables, but only at the level of the
-   CATEGORY: its own reflection checks, for each of the 7 462 classes, that the value the tables give lies
-   in the value range of the class's category (so a wrong value inside the right category leaves it
-   standing; that is C01's business). *)
+   hand. This part of C13 depends on the contents of the lookup tables, but only as far as the property
+   goes: its own reflection checks, for each of the 7 462 classes, that the NAME of the value the tables give
+   is Flush/StraightFlush, Straight/StraightFlush, StraightFlush exactly when the class's category is (so a
+   wrong value that stays on the same side of these three tests leaves it standing; that is C01's business). *)
 From Coq Require Import String.
 From CKC Require Import Base.Prelude Base.Reflect Spec.Layout Spec.Poker.
 From CKC Require Import Gen.Enums.
@@ -24,17 +24,28 @@ Definition name_of_category (c : N) : N :=
   variant HandRankName_NAMES (nth (N.to_nat c) CATEGORY_NAMES EmptyString).
 
 (* THE REFLECTION: on every class the tables give a value whose category name is the class's category *)
+Definition in2 (x a b : N) : bool := (x =? a) || (x =? b).
 Definition cat_entry_ok (chk : bool) (p : N * shape) : bool :=
   let '(_, (rs, fl)) := p in
+  let c := category (rs, fl) in
   match eval_abs chk rs fl with
-  | Ok v => determine_name v =? name_of_category (category (rs, fl))
+  | Ok v =>
+      let n := determine_name v in
+      Bool.eqb (in2 n NAME_FLUSH NAME_STRAIGHT_FLUSH) (in2 c FLUSH STRAIGHT_FLUSH)
+      && Bool.eqb (in2 n NAME_STRAIGHT NAME_STRAIGHT_FLUSH) (in2 c STRAIGHT STRAIGHT_FLUSH)
+      && Bool.eqb (n =? NAME_STRAIGHT_FLUSH) (c =? STRAIGHT_FLUSH)
   | _ => false
   end.
 Lemma cat_ranked chk : forallb (cat_entry_ok chk) ranked = true.
 Proof. destruct chk; vm_cast_no_check (eq_refl true). Qed.
 
 Lemma hrv5_category chk ws :
-  Hand5 ws -> exists v, hrv5 chk ws = Ok v /\ determine_name v = name_of_category (category (shape_of ws)).
+  Hand5 ws ->
+  exists v, hrv5 chk ws = Ok v /\
+    let n := determine_name v in let c := category (shape_of ws) in
+    in2 n NAME_FLUSH NAME_STRAIGHT_FLUSH = in2 c FLUSH STRAIGHT_FLUSH /\
+    in2 n NAME_STRAIGHT NAME_STRAIGHT_FLUSH = in2 c STRAIGHT STRAIGHT_FLUSH /\
+    (n =? NAME_STRAIGHT_FLUSH) = (c =? STRAIGHT_FLUSH).
 Proof.
   intros (HL & HR & HN).
   rewrite (hrv5_abs chk ws HL HR).
@@ -46,25 +57,13 @@ Proof.
   pose proof (cat_ranked chk) as HS. rewrite forallb_forall in HS. specialize (HS _ Hin).
   cbn [cat_entry_ok] in HS.
   destruct (eval_abs chk (sort_desc rs) fl) as [v| |]; try discriminate HS.
-  exists v. split; [reflexivity | apply N.eqb_eq, HS].
+  cbv zeta in HS. rewrite !andb_true_iff in HS. destruct HS as [[A B] C].
+  apply Bool.eqb_prop in A. apply Bool.eqb_prop in B. apply Bool.eqb_prop in C.
+  exists v. split; [reflexivity|]. cbv zeta. repeat split; assumption.
 Qed.
 
-Lemma name_of_category_inj c d : c < 9 -> d < 9 -> name_of_category c = name_of_category d -> c = d.
-Proof.
-  intros Hc Hd E.
-  pose proof (forallb_N_range2
-    (fun c d => negb (name_of_category c =? name_of_category d) || (c =? d)) 9 9
-    ltac:(vm_compute; reflexivity) c d Hc Hd) as H. cbv beta in H.
-  apply orb_true_iff in H. destruct H as [H|H].
-  - apply negb_true_iff, N.eqb_neq in H. contradiction.
-  - apply N.eqb_eq, H.
-Qed.
-
-Lemma category_small h : category h < 9.
-Proof.
-  unfold category. destruct h as [rs fl].
-  repeat match goal with |- (if ?b then _ else _) < 9 => destruct b end; vm_compute; reflexivity.
-Qed.
+Lemma in2_iff x a b : in2 x a b = true <-> x = a \/ x = b.
+Proof. unfold in2. rewrite orb_true_iff, !N.eqb_eq. tauto. Qed.
 
 Lemma rank_name_ok chk ws :
   Hand5 ws ->
@@ -74,16 +73,17 @@ Lemma rank_name_ok chk ws :
     (is_straight ws = true <-> hr_name r = NAME_STRAIGHT \/ hr_name r = NAME_STRAIGHT_FLUSH) /\
     (is_straight_flush ws = true <-> hr_name r = NAME_STRAIGHT_FLUSH).
 Proof.
-  intros H. destruct (hrv5_category chk ws H) as (v & E & EN).
+  intros H. destruct (hrv5_category chk ws H) as (v & E & EA & EB & EC). cbv zeta in EA, EB, EC.
   destruct (category_ok ws H) as (A & B & C). cbv zeta in A, B, C.
   exists (hr_from v). split.
   { unfold hand_rank_value, hrvh. rewrite (proj1 H). fold (hrv5 chk ws). rewrite E. reflexivity. }
-  cbn [hr_name hr_from]. rewrite EN.
-  pose proof (category_small (shape_of ws)) as HS.
-  assert (K : forall c, c < 9 -> (name_of_category (category (shape_of ws)) = name_of_category c <-> category (shape_of ws) = c)).
-  { intros c Hc. split; [apply name_of_category_inj; assumption | intros ->; reflexivity]. }
-  change NAME_FLUSH with (name_of_category FLUSH).
-  change NAME_STRAIGHT with (name_of_category STRAIGHT).
-  change NAME_STRAIGHT_FLUSH with (name_of_category STRAIGHT_FLUSH).
-  rewrite !K by (vm_compute; reflexivity). tauto.
+  cbn [hr_name hr_from].
+  set (n := determine_name v) in *. set (c := category (shape_of ws)) in *.
+  assert (F1 : n = NAME_FLUSH \/ n = NAME_STRAIGHT_FLUSH <-> c = FLUSH \/ c = STRAIGHT_FLUSH)
+    by (rewrite <- !in2_iff, EA; reflexivity).
+  assert (F2 : n = NAME_STRAIGHT \/ n = NAME_STRAIGHT_FLUSH <-> c = STRAIGHT \/ c = STRAIGHT_FLUSH)
+    by (rewrite <- !in2_iff, EB; reflexivity).
+  assert (F3 : n = NAME_STRAIGHT_FLUSH <-> c = STRAIGHT_FLUSH)
+    by (rewrite <- !N.eqb_eq, EC; reflexivity).
+  tauto.
 Qed.
